@@ -41,6 +41,11 @@ def _areas(ctx):
         ("merc_6x5", {"proj": "merc", "lon_0": 10, "ellps": "WGS84"}, 6, 5, (-300000.0, 5000000.0, 300000.0, 5600000.0), False),
         ("laea_7x9", {"proj": "laea", "lat_0": 60, "lon_0": 20, "ellps": "WGS84"}, 7, 9, (-350000.0, -450000.0, 350000.0, 450000.0), False),
         ("stere_n", {"proj": "stere", "lat_0": 90, "lat_ts": 60, "lon_0": 0, "ellps": "WGS84"}, 5, 5, (-1000000.0, -3500000.0, 1500000.0, -1000000.0), False),
+        # areas whose extent is given max -> min on one or both axes (negative pixel sizes): the cell whose extent contains a point
+        # is still well defined, and every module must still agree on it
+        ("ll_8x4_flipx", {"proj": "longlat", "datum": "WGS84"}, 8, 4, (8.0, -2.0, -8.0, 6.0), True),
+        ("ll_5x3_flipy", {"proj": "longlat", "datum": "WGS84"}, 5, 3, (-1.25, 40.75, 0.0, 40.0), True),
+        ("eqc_4x4_flipxy", {"proj": "eqc", "lon_0": 0, "ellps": "WGS84"}, 4, 4, (400000.0, 400000.0, 0.0, 0.0), False),
     ]
     if not ctx.quick:
         specs += [
